@@ -150,7 +150,7 @@ def judge_ack(text, o):
     if o2.exc:
         kind = 'map-not-found' if o2.exc == 'EngineError' and 'Map not found' in str(o2.exc_obj) else 'raises %s@%s' % (o2.exc, o2.exc_where)
         v.append(('C06|revalidate|%s' % kind, 'validating the acknowledgement raised %r (GS08=%r)' % (o2.exc_obj, [s[8] for s in segs if s[0] == 'GS' and len(s) > 8])))
-    elif o2.verdict is not True:
+    elif o2.verdict is not True and not anchor_unfit(segs):
         foreign = []
         for er in (o2.errors or []):
             if er[0] in ('ele', 'gs-ele', 'st-ele', 'isa-ele') and (er[5], er[7]) in ECHO:
@@ -160,6 +160,29 @@ def judge_ack(text, o):
             v.append(('C06|revalidate|rejected %s/%s at %s%s' % (foreign[0][0], foreign[0][1], foreign[0][5] or '', foreign[0][7] or ''),
                       'the acknowledgement is rejected for reasons other than echoed values: %r' % foreign[:4]))
     return v
+
+
+_AK101 = {}
+
+
+def anchor_unfit(segs):
+    """AK101 echoes the source GS01 and is at the same time the value that lets the map recognise AK1, the segment that
+    opens the acknowledgement's header loop: a GS01 outside the map's AK101 code list (e.g. FA, when a 997 is itself
+    acknowledged) makes the whole set unrecognisable -- a rejection caused by an echoed value that does not fit the
+    acknowledgement's own element definition, which the statement excuses"""
+    from mc import grammar as G
+    fname = '999.5010.xml' if is999(segs) else '997.4010.xml'
+    if fname not in _AK101:
+        codes = None
+        for n in G.segments(G.load(fname)):
+            if n.id == 'AK1':
+                codes = set(n.children[0].codes)
+                break
+        _AK101[fname] = codes
+    codes = _AK101[fname]
+    if not codes:
+        return False
+    return any(s[0] == 'AK1' and len(s) > 1 and s[1] not in codes for s in segs)
 
 
 def is999(segs):
